@@ -6,9 +6,8 @@ foreign key with ON DELETE CASCADE).  One `add_event` = one transaction: `pre_sa
 IGNORE, `post_save` (`process_tags`, kind-5 deletions, kind 0/3 clean-up); an exception rolls
 everything back.
 
-Where SQLite leaves the row order of an un-ordered SELECT open (`result.first()`, the loop in
-`pre_save`), the model exposes the *set of allowed outcomes* (`preSaveOutcomes`); the harness
-reports which one the implementation took and the model checks that it is allowed.
+(Before the `fix:` of `pre_save` only one — order dependent — older version was deleted; now every
+older version of the address is, so the transaction is deterministic.)
 -/
 import NostrRelay.Model.KV
 
@@ -45,51 +44,25 @@ def newDTag : List (List Bytes) → Option Bytes
   | [] :: _ => none
   | (n :: vs) :: rest => if n = KV.dName then some (vs.headD []) else newDTag rest
 
-/-- classification of an older row for a parameterised-replaceable insert -/
-inductive RowClass where
-  | victim     -- matches: would be chosen for deletion
-  | raises     -- `found_tag[0]` on a row without d-tag: IndexError
-  | neutral
-  deriving Repr, DecidableEq
-
-def classifyRow (dTag : Bytes) (row : Event) : RowClass :=
-  let found := row.tags.filter (fun t => t.head? == some KV.dName)
-  if dTag.isEmpty then
-    match found with
-    | [] => .victim
-    | t :: _ => if t.length == 1 || t.getD 1 [] == [] then .victim else .neutral
-  else
-    match found with
-    | [] => .raises
-    | t :: _ => if t.length > 1 && t.getD 1 [] == dTag then .victim else .neutral
-
-inductive PreOutcome where
-  | noVictim
-  | victim (id : Bytes)
-  | raises
-  deriving Repr, DecidableEq
+/-- the d value of an older row: its first d-tag's value, "" when absent or bare -/
+def rowD (tags : List (List Bytes)) : Bytes :=
+  match tags.filter (fun t => t.head? == some KV.dName) with
+  | [] => []
+  | t :: _ => if t.length > 1 then t.getD 1 [] else []
 
 /-- rows selected by `pre_save`: same pubkey and kind, strictly older -/
-def olderRows (s : State) (e : Event) : List Event :=
-  s.events.filter fun r => r.pubkey == e.pubkey && r.kind == e.kind && decide (r.createdAt < e.createdAt)
+def isOlderVersion (e r : Event) : Bool :=
+  r.pubkey == e.pubkey && r.kind == e.kind && decide (r.createdAt < e.createdAt)
 
-/-- every outcome `pre_save` can have, over all row orders of the un-ordered SELECT -/
-def preSaveOutcomes (s : State) (e : Event) : List PreOutcome :=
-  if isReplaceable e.kind then
-    match olderRows s e with
-    | [] => [.noVictim]
-    | rows => rows.map fun r => .victim r.id
+/-- `pre_save` (after the fix: *every* older version of the address is deleted);
+    `none` = IndexError -/
+def preSave (s : State) (e : Event) : Option State :=
+  if isReplaceable e.kind then some (deleteWhere s (isOlderVersion e))
   else if isParamReplaceable e.kind then
     match newDTag e.tags with
-    | none => [.raises]
-    | some d =>
-      -- a row with a malformed tag list (`tag[0]` on `[]`) cannot be stored; ignored
-      let rows := olderRows s e
-      let vs := rows.filter (fun r => classifyRow d r == .victim)
-      let xs := rows.filter (fun r => classifyRow d r == .raises)
-      if vs.isEmpty && xs.isEmpty then [.noVictim]
-      else (vs.map fun r => .victim r.id) ++ (if xs.isEmpty then [] else [.raises])
-  else [.noVictim]
+    | none => none
+    | some d => some (deleteWhere s fun r => isOlderVersion e r && rowD r.tags == d)
+  else some s
 
 /-- `process_tags`: rows for the tags table; `none` = IndexError -/
 def tagRows (e : Event) : Option (List TagRow) :=
@@ -127,7 +100,6 @@ def applyDeletions (s : State) (e : Event) : Option State :=
 inductive AddResult where
   | ok (s : State) (changed : Bool)
   | raises                      -- exception: transaction rolled back, state unchanged
-  | illegal                     -- the observed pre_save outcome is not one the model allows
   deriving Repr
 
 /-- INSERT OR IGNORE + `post_save`, in the state left by `pre_save` -/
@@ -150,17 +122,11 @@ def addCore (s1 : State) (e : Event) : AddResult :=
         | some s5 => .ok s5 true
       else .ok s4 true
 
-/-- the state `pre_save` leaves for a given outcome -/
-def afterPre (s : State) : PreOutcome → State
-  | .victim id => deleteId s id
-  | _ => s
-
-/-- `add_event` after validation/authorisation, given the `pre_save` outcome the implementation took -/
-def addEvent (s : State) (e : Event) (pre : PreOutcome) : AddResult :=
-  if !(preSaveOutcomes s e).contains pre then .illegal else
-  match pre with
-  | .raises => .raises
-  | _ => addCore (afterPre s pre) e
+/-- `add_event` after validation/authorisation: one transaction -/
+def addEvent (s : State) (e : Event) : AddResult :=
+  match preSave s e with
+  | none => .raises
+  | some s1 => addCore s1 e
 
 /-- `QueryGarbageCollector.collect`: ephemeral kinds, or an expiration tag row whose value is
     *string*-smaller than `str(now)` -/
